@@ -224,6 +224,13 @@ class _TwoCoordLib(object):
             w = 8 * n + 1
             e = _cbv(v, w)
             pv = z3.BitVecVal(c.p, w)
+            # the Python layer range-checks before calling: when the path condition already gives v < p nothing is reduced
+            # (keeps the 529-bit remainder of P-521 out of the terms)
+            try:
+                if ctx()._check(z3.UGE(e, pv)) == z3.unsat:
+                    return v
+            except Exception:
+                pass
             times = ((1 << (8 * n)) - 1) // c.p
             if times <= 3:
                 for _ in range(times):
